@@ -21,6 +21,7 @@ Events are JSON lists:
     ["keepdrop", tbl]               keep atoms of T, drop the table object, restore the atoms by pickle/copy   (C10)
 tbl is "public", "T1" or "T2".
 """
+from . import subtable
 import hashlib
 import io
 import os
@@ -422,7 +423,7 @@ class World(object):
             # one of its atoms is one more way of touching the public loaders for the first time (C09)
             if getattr(self, "bare", None) is None:
                 from periodictable import core, mass, density
-                self.bare = core.PeriodicTable("T0-bare")
+                self.bare = subtable.new("T0-bare")
                 mass.init(self.bare)
                 density.init(self.bare)
             return self.bare
@@ -480,7 +481,7 @@ def do_event(w, ev):
         return calc(ev[1], w.table(ev[2]), ev[2] == "public")
     if kind == "create":
         from periodictable import core, mass, density
-        t = core.PeriodicTable(TABLE_NAMES.get(ev[1], ev[1]))
+        t = subtable.new(TABLE_NAMES.get(ev[1], ev[1]))
         mass.init(t)
         density.init(t)
         w.tables[ev[1]] = t
